@@ -504,12 +504,12 @@ func (sr *sessRun) play(ls *lib.Livesim) {
 	stepTimeout := 2500 * time.Millisecond
 	// A step is complete when every representation got its PUT; only when fewer arrive the harness
 	// waits for quiet (long enough for a loaded machine: a late PUT would be booked on the next step).
-	quiet := 2 * time.Second
-	maxWait := 8 * time.Second
+	quiet := 4 * time.Second
+	maxWait := 12 * time.Second
 	if sr.out.Chunked {
 		stepTimeout = time.Duration(in.Cfg.AtoMS+3500) * time.Millisecond
-		quiet = time.Duration(in.Cfg.AtoMS+2000) * time.Millisecond
-		maxWait = time.Duration(in.Cfg.AtoMS+8000) * time.Millisecond
+		quiet = time.Duration(in.Cfg.AtoMS+4000) * time.Millisecond
+		maxWait = time.Duration(in.Cfg.AtoMS+12000) * time.Millisecond
 	}
 	sr.rc.mu.Lock()
 	from := len(sr.rc.log)
